@@ -173,3 +173,880 @@ def gen_tables():
         with open(path, 'w') as f:
             f.write(txt)
     return info
+
+
+# =========================================================================== the check
+"""C10 — Binary headers are faithful to their bytes, byte order and repairs.
+
+Model: coq/C10/{Layout,Tables,Model}.v; theorems coq/C10/Props.v.  Case lines sent to
+bin/modelrun_c10 are documented at the top of coq/C10/driver.ml.  Compared with the
+implementation at public boundaries: klass(bytes, endianness, check=False).binaryblock /
+.endianness / field values (structarr), as_byteswapped, ==, copy, klass(endianness=e) defaults,
+BatteryRunner(klass._get_checks()).check_only / check_fix (repaired bytes + (level, message
+class, fix flag) per check), dst.from_header(src, check) (bytes or refusal class)."""
+import itertools
+import struct
+import warnings
+
+from common import Check, ensure_impl_path, run_model, vm_crosscheck  # noqa: E402
+
+PROP = 'C10'
+_INFO = None
+
+
+def info():
+    global _INFO
+    if _INFO is None:
+        _INFO = collect()
+    return _INFO
+
+
+def hx(b):
+    return 'x' + bytes(b).hex()
+
+
+def be_of(code):
+    return 1 if code == '>' else 0
+
+
+def code_of(be):
+    return '>' if be else '<'
+
+
+def native_be():
+    return 1 if sys.byteorder == 'big' else 0
+
+
+def make_hdr(suf, b, be):
+    """klass(binaryblock, endianness, check=False)"""
+    klass = info()['classes'][suf]['klass']
+    if suf == 'mgh':
+        return klass(bytes(b), check=False)
+    return klass(bytes(b), code_of(be), check=False)
+
+
+def field_values(suf, hdr):
+    """unsigned element values of every field, in layout order: [(id, [v...])]"""
+    ent = info()['classes'][suf]
+    ids = info()['ids']
+    sa = hdr.structarr
+    out = []
+    for name, off, w, cnt, kind in ent['layout']:
+        a = np.atleast_1d(sa[name])
+        if kind == 'KStr':
+            raw = a.tobytes()
+            vals = list(raw)
+        else:
+            nat = a.astype(a.dtype.newbyteorder('='))
+            vals = [int(x) for x in nat.view('u%d' % w).ravel()]
+        if len(vals) != cnt:
+            raise RuntimeError(f'field {name}: {len(vals)} values, expected {cnt}')
+        out.append((ids[name], vals))
+    return out
+
+
+def fmt_fields(fv):
+    return ';'.join(f'{i}=' + ','.join(str(v) for v in vs) for i, vs in fv)
+
+
+# ---- float bit patterns used by the generators
+F32_SPECIAL = [0x00000000, 0x80000000, 0x3f800000, 0xbf800000, 0x7f800000, 0xff800000, 0x7fc00000,
+               0xffc00000, 0x7f800001, 0xff800001, 0x00000001, 0x80000001, 0x007fffff, 0x00800000,
+               0x7f7fffff, 0xff7fffff, 0x43b00000, 0x43b08000, 0x40000000, 0xc0000000]
+
+
+def rand_fbits(rng, w):
+    r = rng.random()
+    if w == 4:
+        if r < 0.4:
+            return rng.choice(F32_SPECIAL)
+        if r < 0.7:
+            return struct.unpack('<I', struct.pack('<f', rng.choice([1, -1]) * rng.uniform(0, 1000)))[0]
+        return rng.getrandbits(32)
+    if r < 0.4:
+        v = rng.choice(F32_SPECIAL)
+        return struct.unpack('<Q', struct.pack('<d', struct.unpack('<f', struct.pack('<I', v))[0]))[0] \
+            if not (v & 0x7f800000 == 0x7f800000 and v & 0x7fffff) else ((v >> 31) << 63) | (0x7ff << 52) | ((v & 0x7fffff) << 29)
+    if r < 0.7:
+        return struct.unpack('<Q', struct.pack('<d', rng.choice([1, -1]) * rng.uniform(0, 1000)))[0]
+    return rng.getrandbits(64)
+
+
+CONSTRAINED = {'sizeof_hdr', 'dim', 'datatype', 'bitpix', 'pixdim', 'vox_offset', 'magic', 'qform_code',
+               'sform_code', 'eol_check', 'origin', 'glmin',
+               # MGH / ECAT
+               'version', 'dims', 'type', 'goodRASFlag', 'delta', 'sw_version', 'magic_number'}
+
+
+def randomize_free(rng, suf, b, be, frac=0.7):
+    """random byte patterns in the fields no setter or check constrains"""
+    b = bytearray(b)
+    for name, off, w, cnt, kind in info()['classes'][suf]['layout']:
+        if name in CONSTRAINED or rng.random() > frac:
+            continue
+        if kind == 'KFloat':
+            for i in range(cnt):
+                v = rand_fbits(rng, w)
+                b[off + i * w: off + (i + 1) * w] = v.to_bytes(w, 'big' if be else 'little')
+        elif kind == 'KStr' and rng.random() < 0.5:
+            k = rng.randrange(0, cnt + 1)
+            b[off: off + cnt] = bytes(rng.randrange(1, 256) for _ in range(k)) + b'\0' * (cnt - k)
+        else:
+            b[off: off + w * cnt] = bytes(rng.getrandbits(8) for _ in range(w * cnt))
+    return bytes(b)
+
+
+def supported_codes(suf):
+    return [c for c, sz in info()['classes'][suf]['dtcodes'] if sz > 0]
+
+
+def gen_valid(rng, suf, be):
+    """a header reachable through the public setters (+ random bytes in free fields)"""
+    ent = info()['classes'][suf]
+    klass = ent['klass']
+    with warnings.catch_warnings():
+        warnings.simplefilter('ignore')
+        if suf == 'mgh':
+            h = klass()
+            h.set_data_dtype(rng.choice([0, 1, 3, 4]))
+            nd = rng.choice([1, 2, 3, 3, 4, 4])
+            h.set_data_shape(tuple(rng.choice([1, 2, 3, 5, 256, 70000]) for _ in range(nd)))
+            z = [rng.choice([0.5, 1.0, 2.25, 1e-3, 1e6]) for _ in range(3)]
+            if h._ndims() > 3 and rng.random() < 0.7:
+                z.append(rng.choice([0.0, 2.5, 3000.0]))
+            h.set_zooms(z)
+            h['goodRASFlag'] = rng.choice([1, 1, 1, 2, -1, 256])
+        elif suf == 'ecat':
+            h = klass(endianness=code_of(be))
+            h['num_frames'] = rng.randrange(0, 50)
+            h['file_type'] = rng.randrange(0, 15)
+            h['patient_orientation'] = rng.randrange(0, 9)
+        else:
+            h = klass(endianness=code_of(be))
+            if rng.random() < 0.9:
+                h.set_data_dtype(rng.choice(supported_codes(suf)))
+            if rng.random() < 0.9:
+                nd = rng.randrange(1, 8)
+                big = 32767 if 'nifti2' not in suf else 2 ** 40
+                h.set_data_shape(tuple(rng.choice([1, 1, 2, 3, 5, 7, 64, big]) for _ in range(nd)))
+                if rng.random() < 0.8:
+                    h.set_zooms(tuple(rng.choice([0.5, 1.0, 2.0, 3.75, 1e-5, 1e7, 0.1]) for _ in range(nd)))
+            if suf in ('spm99', 'spm2') and rng.random() < 0.6:
+                h.set_slope_inter(rng.choice([1.0, 2.5, -0.125, 1e-10, None]), None)
+            if suf in ('spm99', 'spm2') and rng.random() < 0.6 and len(h.get_data_shape()) >= 3:
+                aff = np.diag([rng.choice([1.0, 2.0, -3.0]), 2.0, 1.5, 1.0])
+                aff[:3, 3] = [rng.uniform(-50, 50) for _ in range(3)]
+                h.set_origin_from_affine(aff)
+            if suf.startswith('nifti'):
+                if rng.random() < 0.6:
+                    aff = np.diag([rng.choice([1.0, 2.0, -3.0]), 2.0, 1.5, 1.0])
+                    aff[:3, 3] = [rng.uniform(-100, 100) for _ in range(3)]
+                    h.set_qform(aff, code=rng.randrange(0, 6))
+                if rng.random() < 0.6:
+                    aff = np.array([[rng.uniform(-3, 3) for _ in range(4)] for _ in range(3)] + [[0, 0, 0, 1.0]])
+                    h.set_sform(aff, code=rng.randrange(0, 6))
+                if rng.random() < 0.5:
+                    h.set_slope_inter(rng.choice([1.0, 2.5, -0.125]), rng.choice([0.0, 10.0, -1e5]))
+                if rng.random() < 0.5:
+                    h.set_dim_info(*[rng.choice([None, 0, 1, 2]) for _ in range(3)])
+                if rng.random() < 0.5:
+                    h.set_intent(rng.choice(['none', 't test', 'vector', 'z score']), (), name='nm', allow_unknown=False) \
+                        if rng.random() < 0.5 else h.set_intent(rng.choice([9999, 7777]), (1, 2, 3), name='x', allow_unknown=True)
+                if rng.random() < 0.5:
+                    h.set_xyzt_units(rng.choice(['mm', 'meter', 'micron', 'unknown']), rng.choice(['sec', 'msec', 'unknown']))
+                if rng.random() < 0.5:
+                    minoff = ent['single_vox_offset']
+                    h.set_data_offset(rng.choice([0, minoff, minoff + 16, minoff + 16 * rng.randrange(1, 4000)]))
+            elif rng.random() < 0.3:
+                h.set_data_offset(rng.choice([0, 16, 348, 1024]))
+    b = randomize_free(rng, suf, h.binaryblock, be_of(h.endianness))
+    return make_hdr(suf, b, be_of(h.endianness))
+
+
+# ---- part A: bytes, endianness, swap, eq, copy
+def part_a_case(chk, suf, hdr, valid, tag, lines, recs):
+    i = len(recs)
+    ent = info()['classes'][suf]
+    klass = ent['klass']
+    be = be_of(hdr.endianness)
+    b = hdr.binaryblock
+    rec = {'suf': suf, 'be': be, 'b': b, 'valid': valid, 'tag': tag}
+    # implementation observables
+    rebuilt = make_hdr(suf, b, be)
+    rec['rt'] = rebuilt.binaryblock
+    rec['fields'] = fmt_fields(field_values(suf, rebuilt))
+    guessed = klass(b, check=False) if suf == 'mgh' else klass(b, None, check=False)
+    rec['guess'] = be_of(guessed.endianness)
+    try:
+        sw = hdr.as_byteswapped()
+        rec['swap'] = f'ok {be_of(sw.endianness)} {hx(sw.binaryblock)}'
+        rec['swap_fields'] = fmt_fields(field_values(suf, sw))
+        rec['eq1'] = bool(hdr == sw)
+        rec['eq2'] = bool(sw == hdr)
+        rec['swap_obj'] = (be_of(sw.endianness), sw.binaryblock)
+    except ValueError:
+        rec['swap'] = 'err refuse'
+        chk.refusal('byteswap_refused')
+    same = hdr.as_byteswapped(hdr.endianness)
+    rec['swap_same'] = f'ok {be_of(same.endianness)} {hx(same.binaryblock)}'
+    # copy independence (implementation only)
+    cp = hdr.copy()
+    orig = hdr.binaryblock
+    first = ent['layout'][0][0] if ent['layout'][0][4] != 'KStr' else None
+    name = next(n for n, o, w, c, k in ent['layout'] if k in ('KInt', 'KUInt'))
+    cp[name] = (int(np.atleast_1d(cp[name]).ravel()[0]) + 1) % 100
+    rec['copy_indep'] = hdr.binaryblock == orig and cp.binaryblock != orig
+    cp2 = hdr.copy()
+    keep = cp2.binaryblock
+    hdr2 = make_hdr(suf, b, be)
+    hdr2[name] = (int(np.atleast_1d(hdr2[name]).ravel()[0]) + 1) % 100
+    rec['copy_eq'] = cp2.binaryblock == keep and bool(cp2 == hdr) and cp2.endianness == hdr.endianness
+    recs.append(rec)
+    nb = native_be()
+    lines.append(f'a{i}.f fields {suf} {be} {hx(b)}')
+    lines.append(f'a{i}.r rt {suf} {be} {hx(b)}')
+    lines.append(f'a{i}.g frombytes {suf} {nb} - {hx(b)}')
+    lines.append(f'a{i}.s swap {suf} {nb} - {be} {hx(b)}')
+    lines.append(f'a{i}.t swap {suf} {nb} {be} {be} {hx(b)}')
+    if 'swap_obj' in rec:
+        sbe, sb = rec['swap_obj']
+        lines.append(f'a{i}.sf fields {suf} {sbe} {hx(sb)}')
+        lines.append(f'a{i}.e1 eq {suf} {be} {hx(b)} {sbe} {hx(sb)}')
+        lines.append(f'a{i}.e2 eq {suf} {sbe} {hx(sb)} {be} {hx(b)}')
+    chk.count(key=('A', suf, be, b), tag=f'A:{suf}', sample={'part': 'A', 'cls': suf, 'be': be, 'bytes': b.hex()[:80] + '...'} if i in (3, 400) else None)
+    chk.tagc(f'A:{tag}')
+    chk.tagc('A:endian>' if be else 'A:endian<')
+
+
+def part_a_compare(chk, recs, mod):
+    for i, rec in enumerate(recs):
+        suf, be, b = rec['suf'], rec['be'], rec['b']
+        case = {'part': 'A', 'cls': suf, 'be': be, 'bytes': b.hex(), 'valid': rec['valid']}
+        dis = []
+        exp_rt = 'ok ' + hx(rec['rt'])
+        if suf == 'mgh':
+            # the model's faithful constructor (goodRASFlag == 0 resets the affine) is op frombytes
+            if mod.get(f'a{i}.g') != f'ok 1 {hx(rec["rt"])}':
+                dis.append(('mgh-constructor', mod.get(f'a{i}.g', '')[:100], exp_rt[:100]))
+        else:
+            if mod.get(f'a{i}.r') != exp_rt:
+                dis.append(('binaryblock', mod.get(f'a{i}.r', '')[:100], exp_rt[:100]))
+            if mod.get(f'a{i}.g') != f'ok {rec["guess"]} {hx(b)}':
+                dis.append(('guessed-endian', mod.get(f'a{i}.g', '')[:20], rec['guess']))
+        if rec['rt'] == b and mod.get(f'a{i}.f') != 'ok ' + rec['fields']:
+            dis.append(('fields', mod.get(f'a{i}.f', '')[:200], rec['fields'][:200]))
+        if mod.get(f'a{i}.s') != rec['swap']:
+            dis.append(('as_byteswapped', mod.get(f'a{i}.s', '')[:100], rec['swap'][:100]))
+        if mod.get(f'a{i}.t') != rec['swap_same']:
+            dis.append(('as_byteswapped(same)', mod.get(f'a{i}.t', '')[:100], rec['swap_same'][:100]))
+        if 'swap_obj' in rec:
+            if mod.get(f'a{i}.sf') != 'ok ' + rec['swap_fields']:
+                dis.append(('swapped-fields', mod.get(f'a{i}.sf', '')[:200], rec['swap_fields'][:200]))
+            if mod.get(f'a{i}.e1') != f'ok {int(rec["eq1"])}' or mod.get(f'a{i}.e2') != f'ok {int(rec["eq2"])}':
+                dis.append(('__eq__', mod.get(f'a{i}.e1'), rec['eq1']))
+        # ---- property predicate, directly on the implementation
+        pred = None
+        known = False
+        if rec['rt'] != b:
+            pred = 'header built from bytes does not serialise to the same bytes'
+            if suf == 'mgh' and mgh_flag_zero(b):
+                known = True
+        elif rec['valid'] and rec['guess'] != be:
+            pred = f'byte order of a valid header guessed as {code_of(rec["guess"])}, is {code_of(be)}'
+        elif 'swap_obj' in rec and not (rec['eq1'] and rec['eq2']):
+            pred = 'byte-swapped copy does not compare equal'
+        elif 'swap_obj' in rec and rec['swap_fields'] != rec['fields']:
+            pred = 'byte-swapped copy exposes different field values'
+        elif 'swap_obj' in rec and rec['swap_obj'][0] == be:
+            pred = 'as_byteswapped() kept the byte order'
+        elif not rec['copy_indep'] or not rec['copy_eq']:
+            pred = 'copy is not independent of / equal to the original'
+        report(chk, case, pred, known, dis, mod.get(f'a{i}.r'))
+
+
+def mgh_flag_zero(b):
+    ent = info()['classes']['mgh']
+    off = next(o for n, o, w, c, k in ent['layout'] if n == 'goodRASFlag')
+    return len(b) >= off + 2 and b[off:off + 2] == b'\0\0'
+
+
+def report(chk, case, pred, known, dis, model_out=None):
+    if pred:
+        if known:
+            chk.known('S-C10a', 'MGHHeader built from bytes whose goodRASFlag is 0 resets delta/Mdc/Pxyz_c/goodRASFlag '
+                      '(documented FreeSurfer default): binaryblock differs from the input bytes; copy() of such a header differs')
+        else:
+            chk.violation('property_violation', case=case, predicate=pred, model_output=model_out and model_out[:300])
+    if dis:
+        chk.disagreements += 1
+        if not pred or known:
+            chk.violation('correspondence', case=case, model_output=str(dis[0][1])[:300], impl_output=str(dis[0][2])[:300],
+                          predicate='model and implementation disagree at ' + dis[0][0] +
+                          '; the property predicate holds on this case', found_input=False,
+                          theorem='correspondence C10/Model.v <-> nibabel header classes')
+
+
+# ---- part B: check batteries
+MSG_CLASS = [
+    ('sizeof_hdr should be', 'sizeof'), ('not recognized', 'dt_unrec'), ('not supported', 'dt_unsup'),
+    ('no valid datatype to fix bitpix', 'bp_nodt'), ('bitpix does not match datatype', 'bp_mismatch'),
+    ('pixdim[1,2,3] should be non-zero and pixdim[1,2,3] should be positive', 'pix_zero_neg'),
+    ('pixdim[1,2,3] should be non-zero', 'pix_zero'), ('pixdim[1,2,3] should be positive', 'pix_neg'),
+    ('pixdim[0] (qfac) should be', 'qfac'), ('magic string', 'magic'), ('too low for single file', 'off_low'),
+    ('not divisible by 16', 'off_not16'), ('qform_code', 'qform'), ('sform_code', 'sform'),
+    ('EOL check all 0', 'eol_zero'), ('EOL check not 0 or', 'eol_bad'), ('very large origin values', 'origin'),
+    ('Unknown MGH format version', 'version'),
+]
+UNFIXABLE = {'dt_unrec', 'dt_unsup', 'bp_nodt', 'magic', 'off_not16', 'origin'}
+
+
+def classify(msg):
+    if not msg:
+        return 'none'
+    for pat, cls in MSG_CLASS:
+        if pat in msg:
+            return cls
+    return 'other:' + msg[:40]
+
+
+def fmt_reports(reps):
+    if not reps:
+        return '-'
+    return ','.join(f'{int(r.problem_level)}:{classify(r.problem_msg)}:{int(bool(r.fix_msg))}' for r in reps)
+
+
+def set_f(hdr, suf, name, idx, bits):
+    """write an IEEE bit pattern into element idx of a float field"""
+    w = next(wd for n, o, wd, c, k in info()['classes'][suf]['layout'] if n == name)
+    val = np.array([bits], dtype='<u%d' % w).view('<f%d' % w)[0]
+    if idx is None:
+        hdr.structarr[name] = val
+    else:
+        hdr.structarr[name][idx] = val
+
+
+def defect_menu(suf):
+    """seed-independent defect seeds per check: name -> function(hdr, variant)"""
+    ent = info()['classes'][suf]
+    n2 = suf.startswith('nifti2')
+    m = {}
+    if suf == 'mgh':
+        m['version'] = [lambda h: h.__setitem__('version', 0), lambda h: h.__setitem__('version', 2)]
+        return m
+    if suf == 'ecat':
+        return m
+    other = 540 if ent['sizeof_hdr'] == 348 else 348
+    m['sizeof'] = [lambda h: h.__setitem__('sizeof_hdr', other), lambda h: h.__setitem__('sizeof_hdr', 1543569408),
+                   lambda h: h.__setitem__('sizeof_hdr', -1)]
+    m['datatype'] = [lambda h: h.__setitem__('datatype', 3), lambda h: h.__setitem__('datatype', 255),
+                     lambda h: h.__setitem__('datatype', -1), lambda h: h.__setitem__('datatype', 0)]
+    m['bitpix'] = [lambda h: h.__setitem__('bitpix', 7), lambda h: h.__setitem__('bitpix', -8),
+                   lambda h: h.__setitem__('bitpix', 0)]
+    w = 8 if n2 else 4
+    one, two = (0x3ff0000000000000, 0x4000000000000000) if n2 else (0x3f800000, 0x40000000)
+    sb = 1 << (8 * w - 1)
+    nan = (0x7ff8000000000000 if n2 else 0x7fc00000)
+    inf = (0x7ff0000000000000 if n2 else 0x7f800000)
+    m['pixzero'] = [lambda h: set_f(h, suf, 'pixdim', 2, 0), lambda h: set_f(h, suf, 'pixdim', 1, sb),
+                    lambda h: (set_f(h, suf, 'pixdim', 1, 0), set_f(h, suf, 'pixdim', 3, sb))]
+    m['pixneg'] = [lambda h: set_f(h, suf, 'pixdim', 3, two | sb), lambda h: set_f(h, suf, 'pixdim', 1, inf | sb),
+                   lambda h: (set_f(h, suf, 'pixdim', 2, 1 | sb), set_f(h, suf, 'pixdim', 3, nan | sb | 5))]
+    if suf in ('spm99', 'spm2'):
+        m['origin'] = [lambda h: h.__setitem__('origin', [30000, 1, 1, 0, 0]), lambda h: h.__setitem__('origin', [-32768, 0, 0, 0, 0]),
+                       lambda h: h.__setitem__('origin', [0, 0, -9, 7, 7])]
+    if suf.startswith('nifti'):
+        m['qfac'] = [lambda h: set_f(h, suf, 'pixdim', 0, 0), lambda h: set_f(h, suf, 'pixdim', 0, two),
+                     lambda h: set_f(h, suf, 'pixdim', 0, nan)]
+        m['magic'] = [lambda h: h.__setitem__('magic', b'abc'), lambda h: h.__setitem__('magic', b''),
+                      lambda h: h.__setitem__('magic', b'n+1x'), lambda h: h.__setitem__('magic', b'ni2' if not n2 else b'ni1')]
+        if n2:
+            m['offset'] = [lambda h: h.__setitem__('vox_offset', 17), lambda h: h.__setitem__('vox_offset', -16),
+                           lambda h: h.__setitem__('vox_offset', 543), lambda h: h.__setitem__('vox_offset', 2 ** 40 + 8)]
+        else:
+            m['offset'] = [lambda h: h.__setitem__('vox_offset', 17), lambda h: h.__setitem__('vox_offset', -16),
+                           lambda h: set_f(h, suf, 'vox_offset', None, nan), lambda h: h.__setitem__('vox_offset', 360.5),
+                           lambda h: set_f(h, suf, 'vox_offset', None, inf), lambda h: h.__setitem__('vox_offset', 1e30)]
+        m['qform'] = [lambda h: h.__setitem__('qform_code', 6), lambda h: h.__setitem__('qform_code', -1)]
+        m['sform'] = [lambda h: h.__setitem__('sform_code', 100), lambda h: h.__setitem__('sform_code', -3)]
+        if n2:
+            m['eol'] = [lambda h: h.__setitem__('eol_check', (0, 0, 0, 0)), lambda h: h.__setitem__('eol_check', (13, 10, 26, 11)),
+                        lambda h: h.__setitem__('eol_check', (0, 0, 0, -1))]
+    return m
+
+
+def random_defects(rng, suf, h):
+    """random values in the checked fields (random tail)"""
+    ent = info()['classes'][suf]
+    if suf == 'mgh':
+        if rng.random() < 0.7:
+            h['version'] = rng.choice([0, 1, 2, -1, 16777216])
+        return
+    n2 = suf.startswith('nifti2')
+    w = 8 if n2 else 4
+    if rng.random() < 0.3:
+        h['sizeof_hdr'] = rng.choice([348, 540, 0, 1543569408, 469893120, -2 ** 31])
+    if rng.random() < 0.4:
+        h['datatype'] = rng.choice([c for c, _ in ent['dtcodes']] + [3, 5, -1, 32767, -32768, 257])
+    if rng.random() < 0.4:
+        h['bitpix'] = rng.choice([0, 8, 16, 32, 64, 128, 24, -8, 1, 32767])
+    for i in (1, 2, 3):
+        if rng.random() < 0.4:
+            set_f(h, suf, 'pixdim', i, rand_fbits(rng, w))
+    if 'origin' in [n for n, *_ in ent['layout']] and rng.random() < 0.6:
+        h['origin'] = [rng.choice([0, 0, 1, -1, 5, 100, 32767, -32768, 16384, -16384]) for _ in range(5)]
+        if rng.random() < 0.5:
+            h['dim'] = [rng.choice([3, 4])] + [rng.choice([1, 2, 5, 100, 16384, -16384, 32767, -32768, 0]) for _ in range(7)]
+    if suf.startswith('nifti'):
+        if rng.random() < 0.4:
+            set_f(h, suf, 'pixdim', 0, rand_fbits(rng, w))
+        if rng.random() < 0.4:
+            h['magic'] = rng.choice([b'n+1', b'ni1', b'n+2', b'ni2', b'', b'n+1\0', b'n+\0', b'\0n+1', b'N+1', b'n+1 '])
+        if rng.random() < 0.6:
+            if n2:
+                h['vox_offset'] = rng.choice([0, 1, 16, 543, 544, 545, 560, -1, -16, 2 ** 62, -2 ** 63, rng.getrandbits(20)])
+            elif rng.random() < 0.5:
+                set_f(h, suf, 'vox_offset', None, rand_fbits(rng, 4))
+            else:
+                h['vox_offset'] = rng.choice([0, 1, 16, 351, 352, 353, 368, -1, -16, 351.999, 352.5, 1e20, 2 ** 24, 2 ** 24 + 2])
+        if rng.random() < 0.3:
+            h['qform_code'] = rng.choice([0, 5, 6, -1, 32767])
+        if rng.random() < 0.3:
+            h['sform_code'] = rng.choice([0, 5, 6, -1, 32767])
+        if n2 and rng.random() < 0.5:
+            h['eol_check'] = rng.choice([(0, 0, 0, 0), (13, 10, 26, 10), (13, 10, 26, 11), (10, 26, 10, 13), (-13, 10, 26, 10), (0, 0, 0, 1)])
+
+
+def run_battery(suf, b, be):
+    """implementation: check_only, check_fix, then check_only / check_fix again"""
+    from nibabel.batteryrunners import BatteryRunner
+    klass = info()['classes'][suf]['klass']
+    br = BatteryRunner(klass._get_checks())
+    out = {}
+    with warnings.catch_warnings():
+        warnings.simplefilter('ignore')
+        try:
+            h0 = make_hdr(suf, b, be)
+            out['only'] = 'ok ' + hx(b) + ' ' + fmt_reports(br.check_only(h0))
+            out['only_bytes'] = h0.binaryblock
+        except OverflowError:
+            out['only'] = 'err raise'
+        try:
+            h1 = make_hdr(suf, b, be)
+            h1b, reps = br.check_fix(h1)
+            out['fixed'] = h1b.binaryblock
+            out['fix'] = 'ok ' + hx(out['fixed']) + ' ' + fmt_reports(reps)
+            out['fix_levels'] = [int(r.problem_level) for r in reps]
+        except OverflowError:
+            out['fix'] = 'err raise'
+            return out
+        h2 = make_hdr(suf, out['fixed'], be)
+        reps2 = br.check_only(h2)
+        out['after'] = 'ok ' + hx(out['fixed']) + ' ' + fmt_reports(reps2)
+        out['after_cls'] = [(int(r.problem_level), classify(r.problem_msg)) for r in reps2]
+        h3, reps3 = br.check_fix(make_hdr(suf, out['fixed'], be))
+        out['fixed2'] = h3.binaryblock
+        out['only_levels'] = [int(r.problem_level) for r in br.check_only(make_hdr(suf, b, be))] if out['only'] != 'err raise' else None
+    return out
+
+
+def part_b_case(chk, suf, b, be, tag, lines, recs, key):
+    i = len(recs)
+    o = run_battery(suf, b, be)
+    recs.append({'suf': suf, 'be': be, 'b': b, 'o': o, 'tag': tag})
+    lines.append(f'b{i}.o check {suf} 0 {be} {hx(b)}')
+    lines.append(f'b{i}.x check {suf} 1 {be} {hx(b)}')
+    if 'fixed' in o:
+        lines.append(f'b{i}.a check {suf} 0 {be} {hx(o["fixed"])}')
+    chk.count(key=('B', suf, be, key), tag=f'B:{suf}', sample={'part': 'B', 'cls': suf, 'be': be, 'defects': tag} if i in (7, 1500) else None)
+    chk.tagc('B:' + ('exhaustive-subset' if tag.startswith('subset') else 'random'))
+
+
+def part_b_compare(chk, recs, mod):
+    for i, rec in enumerate(recs):
+        suf, be, b, o = rec['suf'], rec['be'], rec['b'], rec['o']
+        case = {'part': 'B', 'cls': suf, 'be': be, 'bytes': b.hex(), 'defects': rec['tag']}
+        dis = []
+        if mod.get(f'b{i}.o') != o['only']:
+            dis.append(('check_only', mod.get(f'b{i}.o', '')[-160:], o['only'][-160:]))
+        if mod.get(f'b{i}.x') != o['fix']:
+            dis.append(('check_fix', first_diff(mod.get(f'b{i}.x', ''), o['fix']), o['fix'][-160:]))
+        if 'after' in o and mod.get(f'b{i}.a') != o['after']:
+            dis.append(('check_only after check_fix', mod.get(f'b{i}.a', '')[-160:], o['after'][-160:]))
+        pred = None
+        if o['fix'] == 'err raise' or o['only'] == 'err raise':
+            chk.refusal('check_raised_OverflowError')
+        else:
+            if o.get('only_bytes') != b:
+                pred = 'check_only modified the header'
+            elif o['fixed2'] != o['fixed']:
+                pred = 'check_fix is not idempotent: a second run changed the header again'
+            elif all(l == 0 for l in o['only_levels']) and o['fixed'] != b:
+                pred = 'check_fix altered a header that has no problems'
+            elif any(l and c not in UNFIXABLE for l, c in o['after_cls']):
+                pred = 'a fixable problem is still reported after check_fix: ' + str([c for l, c in o['after_cls'] if l])
+            if any(l for l in o['only_levels']):
+                chk.tagc('B:has-problem')
+            else:
+                chk.tagc('B:clean')
+        report(chk, case, pred, False, dis, mod.get(f'b{i}.x'))
+
+
+def first_diff(a, b):
+    if a is None:
+        return '<missing>'
+    for k, (x, y) in enumerate(zip(a, b)):
+        if x != y:
+            return f'at char {k}: model ...{a[max(0, k - 20):k + 40]} impl ...{b[max(0, k - 20):k + 40]}'
+    return f'lengths {len(a)} vs {len(b)}: {a[-80:]}'
+
+
+# ---- part C: conversions between Analyze-family header types
+REDERIVED = {'magic', 'datatype', 'bitpix', 'dim', 'pixdim', 'glmin'}
+
+
+def conv_impl(src_suf, dst_suf, hdr, check):
+    from nibabel.spatialimages import HeaderDataError
+    dst = info()['classes'][dst_suf]['klass']
+    with warnings.catch_warnings():
+        warnings.simplefilter('ignore')
+        try:
+            new = dst.from_header(hdr, check=check)
+        except HeaderDataError as e:
+            msg = str(e)
+            if 'does not support it' in msg or 'data dtype' in msg:
+                return 'err dtype', None
+            if 'shape' in msg or 'glm' in msg or 'glmin' in msg:
+                return 'err shape', None
+            if 'zoom' in msg:
+                return 'err zooms', None
+            return 'err check', None
+        except KeyError:
+            return 'err dtype', None
+        except OverflowError:
+            return 'err raise', None
+    return 'ok ' + hx(new.binaryblock), new
+
+
+def part_c_case(chk, rng, src, dst, hdr, check, lines, recs):
+    i = len(recs)
+    be = be_of(hdr.endianness)
+    b = hdr.binaryblock
+    res, new = conv_impl(src, dst, hdr, check)
+    rec = {'src': src, 'dst': dst, 'be': be, 'b': b, 'check': check, 'res': res}
+    pred = None
+    if new is not None:
+        if be_of(new.endianness) != native_be():
+            pred = 'converted header is not native-endian'
+        # dtype, shape, zooms
+        elif new.get_data_dtype().newbyteorder('=') != hdr.get_data_dtype().newbyteorder('='):
+            pred = 'conversion changed the data dtype'
+        elif tuple(new.get_data_shape()) != tuple(hdr.get_data_shape()):
+            pred = f'conversion changed the shape {hdr.get_data_shape()} -> {new.get_data_shape()}'
+        else:
+            zs, zd = hdr.get_zooms(), new.get_zooms()
+            narrow = np.float32 if (src.startswith('nifti2') and not dst.startswith('nifti2')) else None
+            zs_c = tuple(np.float32(z) if narrow else z for z in zs)
+            repaired = check and any(not (np.float64(z) > 0) for z in zs)   # check_fix may repair such zooms
+            if not repaired and (len(zs) != len(zd) or any(not (np.float64(a) == np.float64(c) or (np.isnan(a) and np.isnan(c))) for a, c in zip(zs_c, zd))):
+                pred = f'conversion changed the zooms {zs} -> {zd}'
+        if pred is None and not check:
+            sl = {n: (w, c, k) for n, o, w, c, k in info()['classes'][src]['layout']}
+            for n, o, w, c, k in info()['classes'][dst]['layout']:
+                if n in sl and n not in REDERIVED and sl[n][0] == w:
+                    a1 = np.atleast_1d(hdr.structarr[n])
+                    a2 = np.atleast_1d(new.structarr[n])
+                    if a1.astype(a1.dtype.newbyteorder('=')).tobytes() != a2.astype(a2.dtype.newbyteorder('=')).tobytes():
+                        pred = f'same-named field {n} not preserved by the conversion'
+                        break
+    else:
+        chk.refusal('convert:' + res)
+    rec['pred'] = pred
+    recs.append(rec)
+    lines.append(f'c{i} conv {src} {dst} {int(check)} {be} {hx(b)}')
+    chk.count(key=('C', src, dst, be, b, check), tag=f'C:{src}->{dst}', sample=None)
+    chk.tagc('C:check' if check else 'C:nocheck')
+
+
+def part_c_compare(chk, recs, mod):
+    for i, rec in enumerate(recs):
+        case = {'part': 'C', 'src': rec['src'], 'dst': rec['dst'], 'be': rec['be'], 'bytes': rec['b'].hex(), 'check': rec['check']}
+        dis = []
+        if mod.get(f'c{i}') != rec['res']:
+            dis.append(('from_header', first_diff(mod.get(f'c{i}', ''), rec['res']), rec['res'][-120:]))
+        report(chk, case, rec['pred'], False, dis, mod.get(f'c{i}'))
+
+
+def subsets(names):
+    for r in range(len(names) + 1):
+        yield from itertools.combinations(names, r)
+
+
+def run(chk: Check):
+    ensure_impl_path()
+    import logging
+    logging.disable(logging.CRITICAL)      # check_fix logs every report
+    chk.rule = ('A: per header class, headers built through the public setters (dtype/shape/zooms/offset/slope/qform/'
+                'sform/intent/units/origin) with random byte patterns (NaN payloads, -0, inf, subnormals) in every '
+                'unconstrained field, both byte orders (MGH big only), plus fully random byte blocks; B: every subset '
+                'of the seeded defects of each class battery (seed-independent, byte order alternating; both in the '
+                'thorough tier) with the defect variant rotating, plus random values in all checked fields; C: every '
+                'ordered pair of distinct Analyze-family classes x random valid source headers x check in {False,True}. '
+                'A case is non-trivial when its header differs from the class default; distinct by (class, byte order, bytes).')
+    chk.assumptions = ['headers are exercised through klass(bytes, endianness, check=False), structarr, as_byteswapped, ==, copy, '
+                       'BatteryRunner(klass._get_checks()).check_only/check_fix and klass.from_header',
+                       'error_level is the default 40; logging is silenced',
+                       'conversions: source dim[0] in 0..7 (valid headers); other values are outside the modelled domain']
+    chk.build(gen_tables=gen_tables)
+    chk.run_probes()
+    if not chk.model_ok:
+        return
+    global _INFO
+    _INFO = None
+    inf = info()
+    rng = chk.rng
+    nb = native_be()
+    lines = []
+    # ---------------- defaults
+    drecs = []
+    for suf, ent in inf['classes'].items():
+        for be in (0, 1):
+            if suf == 'mgh' and be == 0:
+                continue
+            h = ent['klass']() if suf == 'mgh' else ent['klass'](endianness=code_of(be))
+            drecs.append((suf, be, f'ok {be_of(h.endianness)} {hx(h.binaryblock)}'))
+            lines.append(f'd{len(drecs) - 1} default {suf} {be}')
+            chk.count(key=('D', suf, be), tag='D:default')
+    # ---------------- part A
+    arecs = []
+    n_valid = chk.n(60, 1500)
+    n_raw = chk.n(25, 600)
+    fixed_rng = __import__('random').Random(20260930)
+    for suf, ent in inf['classes'].items():
+        # seed-independent core: defaults in both orders + a fixed pseudo-random stream
+        for be in (0, 1):
+            if suf == 'mgh' and be == 0:
+                continue
+            h = ent['klass']() if suf == 'mgh' else ent['klass'](endianness=code_of(be))
+            part_a_case(chk, suf, h, True, 'default', lines, arecs)
+            for _ in range(8):
+                part_a_case(chk, suf, gen_valid(fixed_rng, suf, be), True, 'setters-fixed-stream', lines, arecs)
+        for _ in range(n_valid):
+            be = rng.randrange(2)
+            part_a_case(chk, suf, gen_valid(rng, suf, be), True, 'setters', lines, arecs)
+        for _ in range(n_raw):
+            be = 1 if suf == 'mgh' else rng.randrange(2)
+            b = bytes(rng.getrandbits(8) for _ in range(ent['size']))
+            if suf == 'mgh' and mgh_flag_zero(b):
+                b = b[:28] + b'\0\1' + b[30:]
+            part_a_case(chk, suf, make_hdr(suf, b, be), False, 'random-bytes', lines, arecs)
+    # the one case that probes S-C10a
+    hm = inf['classes']['mgh']['klass']()
+    hm.set_data_shape((3, 4, 5))
+    hm['Pxyz_c'] = [1.0, 2.0, 3.0]
+    bm = bytearray(hm.binaryblock)
+    bm[28:30] = b'\0\0'
+    part_a_mgh_probe(chk, bytes(bm), lines, arecs)
+    # wrong-size blocks are refused (WrapStructError); MGH pads / truncates from 90 bytes on
+    from nibabel.wrapstruct import WrapStructError
+    srecs = []
+    for suf, ent in inf['classes'].items():
+        base = (ent['klass']() if suf == 'mgh' else ent['klass']()).binaryblock
+        for n in (0, 1, ent['size'] - 1, ent['size'] + 1, 89, 90, 100, 200):
+            b = (base + bytes(range(1, 120)))[:n]
+            try:
+                h = ent['klass'](b, check=False)
+                exp = f'ok {be_of(h.endianness)} {hx(h.binaryblock)}'
+            except WrapStructError:
+                exp = 'err size'
+                chk.refusal('wrong_size')
+            srecs.append((suf, n, exp))
+            lines.append(f's{len(srecs) - 1} frombytes {suf} {nb} - {hx(b)}')
+            chk.count(key=('S', suf, n), tag='D:size')
+    # ---------------- part B
+    brecs = []
+    both = chk.tier == 'thorough'
+    for suf, ent in inf['classes'].items():
+        menu = defect_menu(suf)
+        names = list(menu)
+        if not ent['checks']:
+            continue
+        base_be = 0
+        for k, sub in enumerate(subsets(names)):
+            for be in ((0, 1) if both else ((k + base_be) % 2,)):
+                if suf == 'mgh':
+                    be = 1
+                hb = gen_valid(fixed_rng, suf, be)
+                h = make_hdr(suf, hb.binaryblock, be_of(hb.endianness))
+                for j, nm in enumerate(sub):
+                    variants = menu[nm]
+                    variants[(k + j) % len(variants)](h)
+                part_b_case(chk, suf, h.binaryblock, be_of(h.endianness), 'subset:' + '+'.join(sub), lines, brecs, (sub, k))
+                if suf == 'mgh':
+                    break
+        for _ in range(chk.n(150, 4000)):
+            be = 1 if suf == 'mgh' else rng.randrange(2)
+            hb = gen_valid(rng, suf, be)
+            h = make_hdr(suf, hb.binaryblock, be_of(hb.endianness))
+            with warnings.catch_warnings():
+                warnings.simplefilter('ignore')
+                random_defects(rng, suf, h)
+            part_b_case(chk, suf, h.binaryblock, be_of(h.endianness), 'random', lines, brecs, h.binaryblock)
+    # ---------------- part C
+    crecs = []
+    fam = ANALYZE_FAMILY
+    for src in fam:
+        for dst in fam:
+            if src == dst:
+                continue
+            for r in (fixed_rng, rng):
+                for _ in range(chk.n(4, 60)):
+                    be = r.randrange(2)
+                    h = gen_valid(r, src, be)
+                    if r.random() < 0.25:
+                        with warnings.catch_warnings():
+                            warnings.simplefilter('ignore')
+                            conv_perturb(r, src, h)
+                    for check in (False, True):
+                        part_c_case(chk, r, src, dst, h, check, lines, crecs)
+    mod = run_model(PROP, lines)
+    for j, (suf, be, exp) in enumerate(drecs):
+        if mod.get(f'd{j}') != exp:
+            chk.disagreements += 1
+            chk.violation('correspondence', case={'part': 'D', 'cls': suf, 'be': be}, model_output=first_diff(mod.get(f'd{j}', ''), exp),
+                          impl_output=exp[:200], predicate='default header differs', found_input=False,
+                          theorem='correspondence default_structarr')
+    for j, (suf, n, exp) in enumerate(srecs):
+        if mod.get(f's{j}') != exp:
+            chk.disagreements += 1
+            chk.violation('correspondence', case={'part': 'S', 'cls': suf, 'len': n}, model_output=str(mod.get(f's{j}'))[:200],
+                          impl_output=exp[:200], predicate='block-size handling differs', found_input=False,
+                          theorem='correspondence WrapStruct.__init__ size check')
+    part_a_compare(chk, arecs, mod)
+    part_b_compare(chk, brecs, mod)
+    part_c_compare(chk, crecs, mod)
+    chk.extra['unproved_statements'] = UNPROVED
+    vm_sample(chk, arecs, brecs)
+
+
+def part_a_mgh_probe(chk, b, lines, recs):
+    """MGHHeader(bytes with goodRASFlag == 0): known finding S-C10a (structural: class MGH, flag bytes zero)"""
+    from nibabel.freesurfer.mghformat import MGHHeader
+    h = MGHHeader(b, check=False)
+    i = len(recs)
+    rec = {'suf': 'mgh', 'be': 1, 'b': b, 'valid': False, 'tag': 'mgh-goodRASFlag-0', 'rt': h.binaryblock,
+           'fields': fmt_fields(field_values('mgh', h)), 'guess': 1, 'swap': 'err refuse',
+           'swap_same': f'ok 1 {hx(h.binaryblock)}', 'copy_indep': True, 'copy_eq': True}
+    recs.append(rec)
+    lines.append(f'a{i}.g frombytes mgh {native_be()} - {hx(b)}')
+    lines.append(f'a{i}.s swap mgh {native_be()} - 1 {hx(b)}')
+    lines.append(f'a{i}.t swap mgh {native_be()} 1 1 {hx(b)}')
+    chk.count(key=('A', 'mgh', 1, b), tag='A:mgh', sample=None)
+    chk.tagc('A:mgh-goodRASFlag-0')
+
+
+def conv_perturb(rng, suf, h):
+    """source headers that make conversions refuse or exercise the special paths"""
+    r = rng.random()
+    if r < 0.2:
+        h['datatype'] = rng.choice([0, 255, 3, 256, 512, 1024, 2304, 1792, 1536])
+        h['bitpix'] = 8
+    elif r < 0.4:
+        nd = int(h['dim'][0])
+        if nd >= 1:
+            set_f(h, suf, 'pixdim', rng.randrange(1, nd + 1), rng.choice([0x80000001, 0xbf800000, 0xff800000, 0xffc00000, 0x80000000])
+                  if not suf.startswith('nifti2') else rng.choice([1 << 63 | 1, 0xbff0000000000000, 0xfff8000000000000, 1 << 63]))
+    elif r < 0.55 and suf.startswith('nifti1'):
+        h['dim'] = [rng.choice([3, 4]), -1, 1, 1, 2, 1, 1, 1]
+        h['glmin'] = rng.choice([0, 70000, 40000, -5])
+    elif r < 0.65 and suf.startswith('nifti1'):
+        h['dim'] = [3, 27307, 1, 6, 1, 1, 1, 1]
+    elif r < 0.8 and suf.startswith('nifti2'):
+        h['dim'] = [rng.choice([3, 4]), rng.choice([163842, 40000, 2 ** 31 + 5, 2 ** 40]), 1, 1, 2, 1, 1, 1]
+    elif r < 0.9:
+        h['dim'] = [rng.randrange(0, 8)] + [rng.choice([1, 2, 0, -3, 7]) for _ in range(7)]
+    else:
+        h['sizeof_hdr'] = rng.choice([0, 540, 348])
+        if suf.startswith('nifti'):
+            h['qform_code'] = rng.choice([7, 1])
+
+
+UNPROVED = []
+
+
+def vm_sample(chk, arecs, brecs):
+    """cross-check extraction + driver against evaluation inside coqc (small fixed sample)"""
+    def zl(b):
+        return '[' + ';'.join(str(x) for x in b) + ']'
+    cname = {'analyze': 'Analyze', 'spm99': 'Spm99', 'spm2': 'Spm2', 'nifti1': 'Nifti1', 'nifti1pair': 'Nifti1Pair',
+             'nifti2': 'Nifti2', 'nifti2pair': 'Nifti2Pair', 'mgh': 'Mgh', 'ecat': 'Ecat'}
+    pairs = []
+    seen = set()
+    for rec in arecs:
+        if rec['suf'] in seen or 'swap_obj' not in rec:
+            continue
+        seen.add(rec['suf'])
+        c = cname[rec['suf']]
+        be = 'true' if rec['be'] else 'false'
+        pairs.append((f'list_eqb (encode_struct (layout_of {c}) {be} (decode_struct (layout_of {c}) {be} {zl(rec["b"])})) {zl(rec["rt"])}',
+                      f'rt {rec["suf"]}'))
+        pairs.append((f'list_eqb (swap_struct (layout_of {c}) {zl(rec["b"])}) {zl(rec["swap_obj"][1])}', f'swap {rec["suf"]}'))
+        pairs.append((f'Bool.eqb (guessed_endian {c} {"true" if native_be() else "false"} {zl(rec["b"])}) {"true" if rec["guess"] else "false"}',
+                      f'guess {rec["suf"]}'))
+    cnt = {}
+    for rec in brecs:
+        if cnt.get(rec['suf'], 0) >= 2 or 'fixed' not in rec['o'] or rec['o']['fixed'] == rec['b']:
+            continue
+        cnt[rec['suf']] = cnt.get(rec['suf'], 0) + 1
+        c = cname[rec['suf']]
+        be = 'true' if rec['be'] else 'false'
+        pairs.append((f'match check_bytes {c} true {be} {zl(rec["b"])} with Some (b, _) => list_eqb b {zl(rec["o"]["fixed"])} | None => false end',
+                      f'check_fix {rec["suf"]}'))
+    imports = ('From Coq Require Import ZArith List Bool. Import ListNotations. Open Scope Z_scope.\n'
+               'From NV Require Import Base.Bytes C10.Layout C10.Tables C10.Model.\n')
+    ncase, bad = vm_crosscheck(PROP, imports, pairs)
+    chk.vm = {'cases': ncase, 'disagreements': len(bad)}
+    if bad:
+        chk.disagreements += 1
+        chk.violation('correspondence', case={'vm_crosscheck': [pairs[b][1] if isinstance(b, int) and b < len(pairs) else b for b in bad]},
+                      predicate='extracted model / implementation bytes disagree with vm_compute evaluation of the model',
+                      found_input=False, theorem='extraction cross-check')
+
+
+def replay(chk, obj):
+    ensure_impl_path()
+    c = obj.get('case')
+    if not isinstance(c, dict) or 'part' not in c:
+        print('nothing to replay:', obj.get('predicate'))
+        return 1
+    class _C:  # minimal stand-in collecting the verdict
+        pass
+    lines, recs = [], []
+    import types
+    fake = types.SimpleNamespace(count=lambda **k: None, tagc=lambda *a, **k: None, refusal=lambda *a: None, rng=None)
+    if c['part'] == 'A':
+        b = bytes.fromhex(c['bytes'])
+        if c['cls'] == 'mgh' and mgh_flag_zero(b):
+            part_a_mgh_probe(fake, b, lines, recs)
+        else:
+            part_a_case(fake, c['cls'], make_hdr(c['cls'], b, c['be']), c.get('valid', False), 'replay', lines, recs)
+        rec = recs[0]
+        bad = (rec['rt'] != b or (rec['valid'] and rec['guess'] != c['be']) or
+               ('swap_obj' in rec and (not rec['eq1'] or not rec['eq2'] or rec['swap_fields'] != rec['fields'])) or
+               not rec['copy_indep'] or not rec['copy_eq'])
+        print({k: (v.hex() if isinstance(v, bytes) else v) for k, v in rec.items() if k not in ('fields', 'swap_fields')})
+    elif c['part'] == 'B':
+        b = bytes.fromhex(c['bytes'])
+        o = run_battery(c['cls'], b, c['be'])
+        print({k: (v.hex() if isinstance(v, bytes) else v) for k, v in o.items()})
+        bad = 'fixed' in o and (o['fixed2'] != o['fixed'] or (all(l == 0 for l in o['only_levels']) and o['fixed'] != b)
+                                or o.get('only_bytes') != b or any(l and cl not in UNFIXABLE for l, cl in o['after_cls']))
+    elif c['part'] == 'C':
+        part_c_case(fake, None, c['src'], c['dst'], make_hdr(c['src'], bytes.fromhex(c['bytes']), c['be']), c['check'], lines, recs)
+        print(recs[0]['res'][:200], recs[0]['pred'])
+        bad = recs[0]['pred'] is not None
+    else:
+        print('default-header disagreement; re-run ./check C10')
+        return 1
+    lines and print('model:', run_model(PROP, lines))
+    print('property fails on this case' if bad else 'property holds on this case')
+    return 1 if bad else 0
